@@ -69,7 +69,7 @@ def rand_atom(rng):
     if k == 3: return name(rng.choice(NAMES))
     if k == 4: return instr(rng.choice(INSTRS))
     if k == 5: return [7, [rng.randrange(2) for _ in range(rng.randrange(0, 3))]]
-    if k == 6: return [8, [rng.choice([0, 1, rand_i32(rng)]) for _ in range(rng.randrange(0, 3))]]
+    if k == 6: return [8, rng.choice([[rng.choice([0, 1, rand_i32(rng)]) for _ in range(rng.randrange(0, 3))], [1, 2, 3], [3, 1, 2], [2, 1], [1, 2]])]
     if k == 7: return [9, [rng.choice([0, 0x80000000, NAN, rand_f32(rng)]) for _ in range(rng.randrange(0, 3))]]
     if k == 8: return [5, rng.randrange(0, 4), rng.randrange(0, 4)]
     return [0]
@@ -93,6 +93,8 @@ def mutate(rng, t):
         return [6, (t[1] + rng.choice([1, -1, 2, 0x80000000])) & 0xffffffff]
     if t[0] == 9 and t[1] and rng.random() < 0.5:
         return [9, [(t[1][0] + 1) & 0xffffffff] + t[1][1:]]
+    if t[0] in (7, 8, 9) and len(t[1]) >= 2 and rng.random() < 0.3:      # the same elements in another order
+        return [t[0], rng.choice([list(reversed(t[1])), t[1][1:] + t[1][:1], sorted(t[1])])]
     if t[0] in (7, 8, 9) and rng.random() < 0.6:      # a vector atom that is a proper prefix / an extension of the original
         return [t[0], rng.choice([t[1][:-1], t[1] + t[1][:1], t[1] + [0], t[1][1:]])] if t[1] else [t[0], [0]]
     if t[0] == 0 and len(t) > 1 and rng.random() < 0.7:
